@@ -141,7 +141,8 @@ def main():
             'engine': 'vf',
             'level_claimed': {'category': 'exploration', 'text': text, 'design_ref': f'DESIGN.md 6 / {pid}'},
             'level_note': note,
-            'technique': tech,
+            'technique': tech+('; thorough tier: + coverage-guided fuzzing (atheris/libFuzzer) of the same strategies '
+                               'and oracles' if pid in ('C02', 'C06', 'C08', 'C10', 'C13', 'C17', 'C20') else ''),
         })
     na_path = os.path.join(VERIF, 'vf', 'not_applicable.json')
     na_reasons = {}
@@ -165,9 +166,10 @@ def main():
         'engines': [{
             'name': 'vf', 'path': '/verif/vf',
             'serves_properties': sorted(CLAIMED),
-            'kind_free_text': 'Hypothesis 6.168 property-based testing (generated specs, stateful machines, '
+            'kind_free_text': 'Hypothesis 6.168 property-based testing (generated specs, generated operation histories, '
                               'bounded-exhaustive enumeration) against independent reference models; 16 worker '
-                              'processes per check',
+                              'processes per check; the thorough tier of C02, C06, C08, C10, C13, C17 and C20 adds '
+                              'coverage-guided fuzzing (atheris 3 / libFuzzer) driving the same strategies and oracles',
         }],
         'checks': checks,
         'not_applicable': not_app,
